@@ -207,6 +207,10 @@ def search(rec, ctx):
             "k = 1\n" * 1050 + "foo(a, b for b in\n    c, d)\n", "s = f\'\'\'{x=}\n" + "t\n" * 1100 + "{y = }\'\'\'\nz = (1 2)\n"]
     for src in ctx.shard(LONG):
         batch.append((src, "long-span"))
+    # a multi-line string whose last line repeats the end of the line before it, as the token an error is raised at
+    for src in ctx.shard(["import \'\'\'\n\'\'\'\n", 'from """\n"""\nimport x\n', "def f(x, \'\'\'\n\'\'\'\n): pass\n", "import \'\'\'a\\\'\'\'\n\'\'\'\n", "x = 1\nimport f\'\'\'\n\'\'\'\ny = (2 3)\n",
+                          "f(a, \\\n\\\n b) = 1\n", "v = rf\'\'\'{a + \\\n\\\n b =}\'\'\'\n", "g(1, \\\n   \\\n 2 3)\n"]):
+        batch.append((src, "repeated-closing-line"))
     # run the children on chunks
     for a in range(0, len(batch), 150):
         chunk = batch[a : a + 150]
